@@ -17,14 +17,18 @@ package lookups
 //@   ensures implies(result, uf("safeName", bool, name))
 //@ end
 
+// (C20, keyed store: a read returns the last written state) an overwriting
+// upload replaces the file: it is opened write-only and TRUNCATED, so nothing of
+// a longer previous version survives behind the new content.
 //@ func UploadLookupFile
-//@   props C19
+//@   props C19 C20
 //@   site call os.MkdirAll #1:
 //@     assert [dir-trusted] uf("trustedDir", bool, arg0)
 //@   site call os.Stat #1:
 //@     assert [stat-confined] uf("confined", bool, arg0)
 //@   site call os.OpenFile #1:
 //@     assert [open-confined] uf("confined", bool, arg0)
+//@     assert [overwrite-truncates-the-previous-version] (arg1 & os.O_TRUNC) != 0 && (arg1 & os.O_APPEND) == 0 && (arg1 & os.O_WRONLY) != 0
 //@   site call os.Create #1:
 //@     assert [create-confined] uf("confined", bool, arg0)
 //@ end
